@@ -399,6 +399,13 @@ func (w *Worker) decide(alts []*Term, what string) int {
 			feas = append(feas, i)
 		}
 	}
+	if traceDecisions {
+		c := alts[len(alts)-1].String()
+		if len(c) > 6000 {
+			c = c[:6000]
+		}
+		fmt.Fprintf(os.Stderr, "[decision #%d at %s feasible=%v] %s\n", len(w.trace), what, feas, c)
+	}
 	if len(feas) == 0 {
 		panic(pathEnd{endInfeasible, "no feasible alternative at " + what})
 	}
@@ -424,7 +431,7 @@ func (w *Worker) decideBool(c *Term, fr *frame) bool {
 		return c.Val == 1
 	}
 	what := "branch"
-	if fr != nil && w.E.Cfg.Verbose {
+	if fr != nil && (w.E.Cfg.Verbose || traceDecisions) {
 		what = fr.site()
 	}
 	return w.decide([]*Term{w.T.Not(c), c}, what) == 1
@@ -451,6 +458,8 @@ func (w *Worker) choose(n int, what string) int {
 }
 
 const maxConcretize = 1100
+
+var traceDecisions = os.Getenv("GOSYM_TRACE") != ""
 
 // concretize forks over the feasible values of t (enumeration with blocking).
 func (w *Worker) concretize(t *Term, what string) uint64 {
